@@ -176,8 +176,10 @@ def gen_custom_buffers(rng, d, nj):
 class Policy:
     """accept probability policy over the binary action; seeded."""
 
-    def __init__(self, rng, p):
-        self.rng, self.p = rng, p
+    def __init__(self, rng, p, bad_p=0.0):
+        self.rng, self.p, self.bad_p = rng, p, bad_p
 
     def __call__(self, env):
+        if self.bad_p and self.rng.random() < self.bad_p:
+            return self.rng.choice([2, -1, 7, 3])
         return 1 if self.rng.random() < self.p else 0
